@@ -176,6 +176,12 @@ func addCollection(c *api.Context, id b6.CollectionID, tags b6.Collection[any, b
 
 // Add an expression feature with the given id, tags and expression.
 func addExpression(c *api.Context, id b6.FeatureID, tags b6.Collection[any, b6.Tag], expresson b6.Expression) (ingest.Change, error) {
+	// Applying a generic feature with the ID of an area, relation or
+	// collection panics in the world, which expects the specific types.
+	switch id.Type {
+	case b6.FeatureTypeArea, b6.FeatureTypeRelation, b6.FeatureTypeCollection:
+		return nil, fmt.Errorf("add-expression: can't add an expression with the id %s", id)
+	}
 	feature := &ingest.GenericFeature{
 		ID:   id,
 		Tags: []b6.Tag{{Key: b6.ExpressionTag, Value: expresson}},
